@@ -348,7 +348,8 @@ OSS_RULE = ("A: every history of <= MaxLen calls on an operation schema and its 
             "manager announces the pending change, InitFor merge / synthesis with and without equation table, Execute, ExecuteAll, "
             "Lock = the environment makes a result source read-only), from "
             "the presets 'empty', 'chain' (l2 = op(op(b1,b2), b3)), 'diamond' (top = op(op(b1,b2), op(b2,b3))), 'synt' (equation table, "
-            "grandchild over a shared base), 'stale' (chain with an outdated l2 whose source is read-only); generated by TLC from OSS.tla with the predicted pictograms, parents, statuses, flags and "
+            "grandchild over a shared base), 'stale' (chain with an outdated l2 whose source is read-only), 'grid' (layout only: insert, erase, "
+            "ShiftPict, LoadPosition); generated by TLC from OSS.tla with the predicted pictograms, parents, statuses, flags and "
             "contents after the last call and after announcing everything.  Structure and Fresh (C19 on the model) are TLC invariants.  "
             "Replayed on a real OSSchema with upstream's FakeSourceManager as environment: structure invariants after every call "
             "(two distinct existing parents, acyclic, one grid cell, one handle, only leaves erased), after every successful Execute the "
@@ -366,9 +367,9 @@ def plan_C19(ctx):
     ctx.assumptions = ["the source manager is upstream's test double (ccl/core/test/utils/FakeSourceManager.hpp); sources stay open, close / re-open events are not generated",
                        "schemas are abstracted in the model to (base sets, inherited terms, user-added terms); equation tables only between two base pictograms; text edits only where no constituent reaches an operation along two paths",
                        "a parent re-connected to another source with the same formal content leaves its children done (the statement speaks of changes that alter the formal content); counted, not reported",
-                       "grid coordinates are not modelled: one distinct cell per pictogram is checked on the implementation"]
+                       "the layout grid is modelled exactly (ClosestFreePos never moves left, ChildPosFor rounds half up); LoadPosition is generated only onto free cells (its precondition as a loader primitive)"]
     ctx.constants = {}
-    for pr in ("chain", "diamond", "synt", "stale", "empty"):
+    for pr in ("chain", "diamond", "synt", "stale", "empty", "grid"):
         cfg = "Gen_OSS_%s_%s.cfg" % ("q" if ctx.quick else "t", pr)
         ctx.constants[cfg] = open(os.path.join(vcore.TLA, cfg)).read().split("SPECIFICATION")[0].split()
         ctx.replay("Gen_OSS.tla", cfg, h, [], tag=cfg[:-4], timeout=3400, xss="64m", xmx="16g")
